@@ -13,7 +13,7 @@ func init() {
 			"(R22.2) success is reported only after the broken ordered keys and the filtered-out / superseded operations were handed to the removal routines; " +
 			"(R22.3) the removal buffers grow by append (no indexed store beyond a fixed length); " +
 			"(R22.4) SetOperation writes only when the operation key does not exist yet (idempotence), test and write in one exclusive section of the pool's set lock; " +
-			"(R22.5) for a fact found again the superseded entry's operation (not the newly selected one) is queued for removal, the entry is cut out of the collected list and every remembered position above it is shifted down.; (R22.k) every leveldb key builder carries each of its parameters in full under its own prefix constant; (R22.j) jobs handed to a worker read only captured variables that the submitter does not assign again (no job works on a later batch/slot than the one it was created for); (R22.7) the pool is scanned only for a limit of at least one and the result buffer is not sized by the caller's limit up front; (R22.8) reaching the limit does not cut the oldest-first scan off before newer operations of selected facts — R22.7's buffer clause and R22.8 are violated today, known findings",
+			"(R22.5) for a fact found again the superseded entry's operation (not the newly selected one) is queued for removal, the entry is cut out of the collected list and every remembered position above it is shifted down.; (R22.k) every leveldb key builder carries each of its parameters in full under its own prefix constant; (R22.j) jobs handed to a worker read only captured variables that the submitter does not assign again (no job works on a later batch/slot than the one it was created for); (R22.7) the pool is scanned only for a limit of at least one and the result buffer is not sized by the caller's limit up front; (R22.8) reaching the limit does not cut the oldest-first scan off before newer operations of selected facts — R22.7's buffer clause and R22.8 are violated today, known findings; after every cut of a superseded entry the walk over all remembered positions runs to its end before the next entry is collected",
 		NotDecided: "that the leveldb iteration order is insertion order ('most recently added'); the removal routines' own batching; cache coherence of the operation cache.",
 		Run:        runC22,
 	})
@@ -195,6 +195,11 @@ func runC22(c *Ctx) {
 		}
 	}
 	c.Report(cb, "remembered positions are shifted after a cut", cb.Pos(), shift, "facts[k]-- for positions above the removed entry")
+	// … after every cut: between the cut and the next collected entry the walk over all remembered
+	// positions has run to its end (a guard that skips it leaves stale positions behind)
+	for _, cs := range cut {
+		c.MPFrom(cb, cs, "after a cut every remembered position was visited before the next entry is collected", col, 1, GLoopDone("more(var:facts)"))
+	}
 
 }
 
@@ -360,6 +365,11 @@ func opHashesAppendForm(c *Ctx, parent *ssa.Function, meta string) {
 		}
 	}
 	c.Report(cb, "remembered positions are shifted after a cut", cb.Pos(), shift, "facts[k]-- for positions above the removed entry")
+	// … after every cut: between the cut and the next collected entry the walk over all remembered
+	// positions has run to its end (a guard that skips it leaves stale positions behind)
+	for _, cs := range cut {
+		c.MPFrom(cb, cs, "after a cut every remembered position was visited before the next entry is collected", col, 1, GLoopDone("more(var:facts)"))
+	}
 }
 
 // reachesInstr: to is reachable from from within fn.
